@@ -126,10 +126,13 @@ def judge (g : Graph) (i o : Json) : Option String :=
     | none =>
       -- start from a cycle point
       if !finished || g.start ≤ g.icp then none else
-      match (preStartOnly g).find? fun k => !ran.contains k with
+      -- after a stall only what lies within the runahead limit can be expected to have run
+      let auto := lastStop o == some "AUTOMATIC"
+      let limit : Int := ((obsList o).getLast?.bind fun ob => jIntField? ob "rl").getD g.start
+      match (preStartOnly g).find? fun k => !ran.contains k && (auto || k.1 ≤ limit) with
       | some k =>
         let key := if isSeq k.2 then "sequential-first-instance-never-spawned: " else ""
-        some s!"{key}never-ran: {k.1}/{k.2} depends on pre-start instances only (start point {g.start}) but the workflow shut down without running it"
+        some s!"{key}never-ran: {k.1}/{k.2} depends on pre-start instances only (start point {g.start}) but the run ended (automatic shutdown or stall) without running it"
       | none => none
     | some starts =>
       let cl := closure g starts
